@@ -25,6 +25,10 @@ def main():
     if args.replay:
         with open(args.replay) as f:
             body = json.load(f)
+        hs = str(body.get('pythonhashseed', os.environ.get('PYTHONHASHSEED', '0')))
+        if os.environ.get('PYTHONHASHSEED') != hs:
+            # replay under the string-hash seed of the run that found the violation
+            os.execve(sys.executable, [sys.executable, '-m', 'mc.cli'] + sys.argv[1:], dict(os.environ, PYTHONHASHSEED=hs))
         vs = engine.replay_case(body.get('module', modname), body['case'])
         if vs:
             for fp, what in vs:
